@@ -110,11 +110,21 @@ func (g *generatorv2) GenerateFile(f *file) error {
 	// bodies.
 	for _, mod := range fileModifiers {
 		g.usePos = mod.Expr().Pos()
+		start := buff.Len()
 		if err := mod.GenImpl(modifier.GenParams{
 			Writer:  &buff,
 			FuncMap: g.funcMap(f, addImports, aliases),
 		}); err != nil {
 			return err
+		}
+		// The generated function is placed at the top level of the file.
+		for _, name := range usedPredeclared(buff.Bytes()[start:]) {
+			if err := hidesPredeclared(name, g.pkg, g.usePos, true /* packageScope */, g.fset); err != nil {
+				if g.unnameable == nil {
+					g.unnameable = make(map[string]error)
+				}
+				g.unnameable[name] = err
+			}
 		}
 
 		// Insert a newline and space between each modifier generation.
